@@ -33,7 +33,7 @@ const (
 
 func init() {
 	register("C02", propMeta{
-		Explanation:  "Decides that every validation step the optimistic protocol relies on lies on every path to a successful phase 1, for every path of the functions involved: (R1) in phase1Commit, with the retry flag tracked path-sensitively, the final success return is reachable only after item locks, node-key Lock+IsLocked, commitNewRootNodes, areFetchedItemsIntact, commitUpdatedNodes, commitRemovedNodes, commitAddedNodes, commitStores, checkTrackedItems and nodesKeysNilOrLocked, each validator's boolean result feeding the retry flag; (R2) commitUpdatedNodes / commitRemovedNodes / areFetchedItemsIntact compare the registry handle's Version with the node's version for every fetched handle and return false on mismatch before any registry write; (R3) a read-only commit returns nil only when areFetchedItemsIntact said true; (R4) the merge replay rejects items whose version moved and fails when a replayed action fails; (R5) item locks are fetch-set-fetch with ownership granted only on LockID equality, and checkTrackedItems reports a foreign incompatible lock. (R6) no dirty reads through the node cache: the host-wide L1 cache stores clones and hands out materialised copies only. (R7) the item RemoveCurrentItem registers with the item action tracker is the item that was at the cursor when the call began (no re-assignment after the cursor moved to the leaf successor).",
+		Explanation:  "Decides that every validation step the optimistic protocol relies on lies on every path to a successful phase 1, for every path of the functions involved: (R1) in phase1Commit, with the retry flag tracked path-sensitively, the final success return is reachable only after item locks, node-key Lock+IsLocked, commitNewRootNodes, areFetchedItemsIntact, commitUpdatedNodes, commitRemovedNodes, commitAddedNodes, commitStores, checkTrackedItems and nodesKeysNilOrLocked, each validator's boolean result feeding the retry flag; (R2) commitUpdatedNodes / commitRemovedNodes / areFetchedItemsIntact compare the registry handle's Version with the node's version for every fetched handle and return false on mismatch before any registry write; (R3) a read-only commit returns nil only when areFetchedItemsIntact said true; (R4) the merge replay rejects items whose version moved and fails when a replayed action fails; (R5) item locks are fetch-set-fetch with ownership granted only on LockID equality, and checkTrackedItems reports a foreign incompatible lock. (R6) no dirty reads through the node cache: the host-wide L1 cache stores clones and hands out materialised copies only. (R7) the item RemoveCurrentItem registers with the item action tracker is the item that was at the cursor when the call began (no re-assignment after the cursor moved to the leaf successor). (R8) itemActionTracker.Update applies its version bump to the incoming item - the object the caller writes back into the node slot - never to the copy tracked before, so a read-modify-write always leaves a newer item version for the refetch-and-merge check of concurrent transactions.",
 		DoesNotCover: "Serializability of concrete histories (a schedule-quantified property) is not decided; nor whether the version numbers themselves are maintained correctly by other writers (see C37), nor transactions in NoCheck mode (excluded by the property's definition of no-check).",
 	}, runC02)
 }
